@@ -332,6 +332,22 @@ pub fn run(ctx: &Ctx) -> i32 {
         }
         per_kind.push(json!({"sketcher": kind.name, "executions": o.execs, "groups": o.groups, "distinct_sketches": o.distinct_obs}));
     }
+    // sketch sizes around 2^16 (an index, counter or level narrower than usize shows there): every stream of length <= 3
+    // over two items and the burst, every chunking
+    let big_sizes: Vec<usize> = ctx.pick(vec![65_537], vec![65_535, 65_536, 65_537]);
+    let big_len = ctx.pick(2usize, 3);
+    // (the reverse densification needs about m ln m generator seedings per finish: seconds per run at this size)
+    let big_kinds: Vec<Kind> = catalogue(&big_sizes, true).into_iter().filter(unweighted).filter(|k| ctx.pick(!k.name.starts_with("RevOptDens"), true)).collect();
+    for kind in &big_kinds {
+        let o = check_kind(kind, 3, big_len, big_len);
+        execs += o.execs;
+        groups += o.groups;
+        distinct += o.distinct_obs;
+        if let Some((what, case)) = o.bad {
+            ctx.violation(&format!("set-semantics:{}", base_name(kind)), &what, case);
+        }
+        per_kind.push(json!({"sketcher": kind.name, "executions": o.execs, "groups": o.groups, "distinct_sketches": o.distinct_obs}));
+    }
     let n_res: u64 = ctx.pick(1 << 20, 1 << 23);
     execs += resolution_check(ctx, n_res);
     // orders and repetitions of {x, y} where x is a rounding witness of the f32 SuperMinHash (see c03::same_set_streams)
@@ -350,7 +366,7 @@ pub fn run(ctx: &Ctx) -> i32 {
         "exhaustive": true,
         "evaluations": execs,
         "distinct_nontrivial": distinct,
-        "rule": "for SuperMinHash f32/f64, SuperMinHash2 u32/u64, SetSketcher u8/u16/u32 (3 parameter sets) and both densified sketchers f32/f64 (Fnv hasher; plus no-op-hasher kinds where item 0 hashes to 0), sizes {1,2,3,7,64} (+5,16,200): every stream of length 1..5 (6) over 5 (6) symbols (4-5 items and a burst of 12 fresh items), i.e. every order and every repetition, under item-wise calls, every chunking into slice calls (all 2^(L-1) cut patterns) and item-wise calls interleaved with empty slices; densified sketchers: item-wise + end_sketch versus one slice; all streams with the same set of distinct items must give the bit-identical observation (all views); stored hashes must be hashes of streamed items; the random value deciding the owner of a position must be distinct for all 2^20 (2^23) items of a block (size-1 sketches, hook H5 for SuperMinHash2); for m in {4,8,12,16,32}: 7 repeating / reordering streams of {x,y} against [x,y] for every x among up to 48 rounding witnesses of the f32 SuperMinHash (items with a single-item value that is an exact integer, found by scanning 2^20 (2^22) items) and y from a 64-item block; distinct = distinct sketches (one per item set and kind)",
+        "rule": "for SuperMinHash f32/f64, SuperMinHash2 u32/u64, SetSketcher u8/u16/u32 (3 parameter sets) and both densified sketchers f32/f64 (Fnv hasher; plus no-op-hasher kinds where item 0 hashes to 0), sizes {1,2,3,7,64} (+5,16,200) - and, with streams of length <= 2 (3) over two items and the burst, size 65537 (65535, 65536, 65537) -: every stream of length 1..5 (6) over 5 (6) symbols (4-5 items and a burst of 12 fresh items), i.e. every order and every repetition, under item-wise calls, every chunking into slice calls (all 2^(L-1) cut patterns) and item-wise calls interleaved with empty slices; densified sketchers: item-wise + end_sketch versus one slice; all streams with the same set of distinct items must give the bit-identical observation (all views); stored hashes must be hashes of streamed items; the random value deciding the owner of a position must be distinct for all 2^20 (2^23) items of a block (size-1 sketches, hook H5 for SuperMinHash2); for m in {4,8,12,16,32}: 7 repeating / reordering streams of {x,y} against [x,y] for every x among up to 48 rounding witnesses of the f32 SuperMinHash (items with a single-item value that is an exact integer, found by scanning 2^20 (2^22) items) and y from a 64-item block; distinct = distinct sketches (one per item set and kind)",
         "rounding_witness_streams": wdetails,
         "sketcher_kinds": kinds.len(),
         "item_set_groups": groups,
@@ -368,7 +384,8 @@ pub fn run(ctx: &Ctx) -> i32 {
 
 pub fn replay(_ctx: &Ctx, case: &Value) -> Result<(bool, String), String> {
     let name = case["sketcher"].as_str().ok_or("sketcher")?;
-    let kinds = catalogue(&sizes(false), true);
+    let mut kinds = catalogue(&sizes(false), true);
+    kinds.extend(catalogue(&[65_535, 65_536, 65_537], true));
     let kind = kinds.iter().find(|k| k.name == name).ok_or("unknown sketcher kind")?;
     let nsym = case["nsym"].as_u64().ok_or("nsym")? as u8;
     let stream: Vec<u8> = case["stream"].as_array().ok_or("stream")?.iter().map(|v| v.as_u64().unwrap_or(0) as u8).collect();
